@@ -9,7 +9,7 @@ def mk_dataset(rng, kind=None, maxn=40):
     kind = kind or str(rng.choice(KINDS))
     n = int(rng.integers(3, maxn))
     q0 = int(rng.integers(5, 300)) / 100 if rng.random() > 0.1 else 0.0   # 10%: the first bin is Q = 0
-    dq = float(rng.choice([0.01, 0.02, 0.05]))
+    dq = float(rng.choice([0.01, 0.02, 0.05, 0.01, 0.02, 0.05, 0.004, 0.005]))   # 25%: finer than the lattice
     q = np.round(q0 + np.arange(n) * dq, 2)
     if rng.random() < 0.3:
         q = q + rng.uniform(-0.004, 0.004, n)  # raw abscissae not yet on the 0.01 lattice
